@@ -170,7 +170,7 @@ impl Property for C15 {
     fn run(&self, src: &mut Src, rep: &mut Report) -> Verdict {
         let a = gen_spec(src);
         let mut b = a.clone();
-        let how = src.below(12);
+        let how = src.below(13);
         let mut only_order = false;
         let mut shift = false;
         let mut placement = false;
@@ -259,6 +259,14 @@ impl Property for C15 {
             }
             10 => {
                 b.name = src.pick(NAMES).to_string();
+            }
+            11 => {
+                // the same multiset of constant values assigned to the label names in another order
+                let p = src.perm(b.consts.len());
+                let vals: Vec<String> = p.iter().map(|&i| a.consts[i].1.clone()).collect();
+                for (e, v) in b.consts.iter_mut().zip(vals) {
+                    e.1 = v;
+                }
             }
             _ => {
                 // same constant values under different label names (identity must stay equal)
